@@ -1,6 +1,6 @@
 //! C09 – rate and ETA estimator laws: correspondence with model/Estimator.v + EstimatorFloat.v (binary64 instances,
 //! powf supplied as data) + direct oracle on the implementation's outputs (classes, interpretations and
-//! candidate findings: docs/C09.md).
+//! findings: docs/C09.md).
 //!
 //! Everything goes through the PUBLIC API under the mock clock: the bar is created after
 //! `set_clock_ns`, driven by set_position/inc/dec/update/tick/set_length/reset*/finish and
@@ -23,17 +23,12 @@ const NAN_BITS: u64 = 0x7FF8_0000_0000_0000;
 const STALL_SUBNORMAL_NS: u64 = 4615 * S;
 const STALL_ZERO_NS: u64 = 4855 * S;
 
-/// Candidate findings of this check that are not (yet) entries of known_findings.json, which is
-/// not this property's file.  While a switch is `false` the oracle COUNTS the failures of that
-/// class (evidence: `candidate-finding:<class>`, plus a note) but does not report them; set it to
-/// `true` once the coordinator has registered the class as an open finding (then `./check` prints
-/// KNOWN-FINDING for it), or to see the VIOLATION it is without the registration.
-///  * `rate-underflow-after-long-stall`: per_sec() == 0.0 (hence eta() == 0) although progress has
-///    been seen since the last restart, at a query >= 4615 s after the last accepted sample.
-///  * `nan-at-backwards-seek-instant`: per_sec() is NaN at a query whose clock reading equals the
-///    instant of a recorded backwards seek that lies strictly after creation / the last reset*.
-const REPORT_UNDERFLOW_FINDING: bool = true;
-const REPORT_REWIND_NAN_FINDING: bool = true;
+/// Known-finding classes (open entries of known_findings.json: D11 `stall-rise-after-acceleration`,
+/// D32 `rate-underflow-after-long-stall`) are reported at most this many times per run and only
+/// counted afterwards (`oracle_failure:<class>` in the evidence keeps the total): `Session::fail`
+/// keeps the first 200 failures of a run, and ~1 600 readings of these two classes would crowd
+/// out a new violation found later in the run.
+const KNOWN_CLASS_REPORT_CAP: u64 = 40;
 
 #[derive(Clone, Debug, PartialEq)]
 enum Op {
@@ -215,10 +210,13 @@ impl Shadow {
         self.prev_time = now;
         true
     }
-    /// transcription of Estimator::steps_per_second (src/state.rs:501-537)
+    /// transcription of Estimator::steps_per_second (src/state.rs:501-544)
     fn rate(&self, now: u64) -> f64 {
         let reweight = weight_of(secs_of(now.saturating_sub(self.prev_time)));
         let total_weight = 1.0 - weight_of(secs_of(now.saturating_sub(self.start_time)));
+        if total_weight == 0.0 {
+            return 0.0; // fix 56491a5
+        }
         let sps = self.sm * reweight / total_weight;
         let dsps = self.dsm * reweight + sps * (1.0 - reweight);
         dsps / total_weight
@@ -457,16 +455,18 @@ struct Stats {
     stall_rises: u64,
     stall_rises_known: u64,
     stall_windows: u64,
-    cand_underflow: u64,
-    cand_rewind_nan: u64,
+    underflow_seen: u64,
+    d11_reported: u64,
+    d32_reported: u64,
 }
 
-/// a failure of a class that is a candidate finding: reported only when its switch is on
-fn candidate(s: &mut Session, report: bool, class: &str, detail: String, desc: &str) {
-    if report {
+/// a failure of a KNOWN-finding class: reported KNOWN_CLASS_REPORT_CAP times, counted afterwards
+fn fail_known(s: &mut Session, reported: &mut u64, class: &str, detail: String, desc: &str) {
+    if *reported < KNOWN_CLASS_REPORT_CAP {
+        *reported += 1;
         s.fail(class, detail, desc.to_string());
     } else {
-        s.count(&format!("candidate-finding:{class}"));
+        s.count(&format!("oracle_failure:{class}"));
     }
 }
 
@@ -539,16 +539,17 @@ fn oracle(s: &mut Session, st: &mut Stats, desc: &str, ops: &[Op], run: &Run, st
                 if known {
                     st.stall_rises_known += 1;
                 }
-                let class = if known { "stall-rise-after-acceleration" } else { "stall-nonmonotone" };
-                s.fail(
-                    class,
+                let detail =
                     format!(
                         "stalled since t={}ns: per_sec {} at +{}ns < {} at +{}ns (rate must decay monotonically while no progress is made); at the last sample smoothed={} double_smoothed={} (transcription {} the readings), rise first: {}",
                         w[0].t, w[k - 1].rate, w[k - 1].t - w[0].t, w[k].rate, w[k].t - w[0].t,
                         sd.0, sd.1, if agrees { "reproduces" } else { "does NOT reproduce" }, unimodal
-                    ),
-                    desc.to_string(),
-                );
+                    );
+                if known {
+                    fail_known(s, &mut st.d11_reported, "stall-rise-after-acceleration", detail, desc);
+                } else {
+                    s.fail("stall-nonmonotone", detail, desc.to_string());
+                }
             }
             // decays TOWARDS ZERO: envelope 2*M*W(x), x = length of the stall
             for k in 1..w.len() {
@@ -605,25 +606,15 @@ fn oracle(s: &mut Session, st: &mut Stats, desc: &str, ops: &[Op], run: &Run, st
         }
         // (1) finite and non-negative strictly after creation / last reset
         if !(ob.per_sec.is_finite() && ob.per_sec >= 0.0) {
-            if at_restart && ob.per_sec.is_nan() {
-                // f64 artefact inside the property's domain: 0.0 * 1.0 / 0.0 at the instant of a
-                // recorded backwards seek (theorems C09_bar_rewind_instant_refuted,
-                // C09_f64_rewind_instant_nan_refuted; candidate patch docs/patches/C09-rewind-nan.diff)
-                st.cand_rewind_nan += 1;
-                candidate(
-                    s,
-                    REPORT_REWIND_NAN_FINDING,
-                    "nan-at-backwards-seek-instant",
-                    format!("per_sec=NaN at op #{} ({}), t={} = instant of a recorded backwards seek, strictly after creation / last reset at {}", q.op_index, o.coq(), q.t, q.reset_time),
-                    desc,
-                );
-            } else {
-                s.fail(
-                    "not-finite",
-                    format!("per_sec={} at op #{} ({}), t={} > creation / last reset {} (estimator start {})", ob.per_sec, q.op_index, o.coq(), q.t, q.reset_time, q.est_start),
-                    desc.to_string(),
-                );
-            }
+            // NaN at the instant of a recorded backwards seek was the defect fixed by 56491a5
+            // (0.0 * 1.0 / 0.0; regression theorems C09_*_rewind_instant_*_pre_56491a5): its own
+            // class, a VIOLATION if it reappears
+            let class = if at_restart && ob.per_sec.is_nan() { "nan-at-backwards-seek-instant" } else { "not-finite" };
+            s.fail(
+                class,
+                format!("per_sec={} at op #{} ({}), t={} > creation / last reset {} (estimator start {})", ob.per_sec, q.op_index, o.coq(), q.t, q.reset_time, q.est_start),
+                desc.to_string(),
+            );
             window.clear();
             continue;
         }
@@ -644,10 +635,10 @@ fn oracle(s: &mut Session, st: &mut Stats, desc: &str, ops: &[Op], run: &Run, st
         let stall_ns = q.t - q.last_sample;
         if seen && ob.per_sec == 0.0 {
             if stall_ns >= STALL_SUBNORMAL_NS {
-                st.cand_underflow += 1;
-                candidate(
+                st.underflow_seen += 1;
+                fail_known(
                     s,
-                    REPORT_UNDERFLOW_FINDING,
+                    &mut st.d32_reported,
                     "rate-underflow-after-long-stall",
                     format!("per_sec=0 and eta={eta:?} at op #{}, {} s after the last accepted sample, although progress has been seen (0.1^(x/15) is below 2^-1022 from 4615 s, rounds to 0 from 4855 s)", q.op_index, stall_ns as f64 / 1e9),
                     desc,
@@ -1210,12 +1201,43 @@ fn main() {
         stall_rises: 0,
         stall_rises_known: 0,
         stall_windows: 0,
-        cand_underflow: 0,
-        cand_rewind_nan: 0,
+        underflow_seen: 0,
+        d11_reported: 0,
+        d32_reported: 0,
     };
     let mut r = Rng::new(a.seed);
 
     // ---- corpus (flocq instance on for all of them)
+    // FIRST case of every run, so that the KNOWN-FINDING line of D32 always quotes this deterministic witness:
+    // binary64 underflow of the weight, thresholds of Theorem C09_weight_underflow_thresholds
+    {
+        let ops = vec![
+            Op::Adv(S), Op::UpdPos(1000), Op::Query,
+            Op::Adv(4614 * S), Op::Query, Op::Adv(S), Op::Query,              // 4614 s, 4615 s
+            Op::Adv(239 * S), Op::Query, Op::Adv(S), Op::Query,              // 4854 s, 4855 s
+            Op::Adv(100_000 * S), Op::Query,
+        ];
+        let run = emit(&mut s, &mut st, "corpus-weight-underflow", Some(1_000_000), 0, &ops, true, None);
+        let qs: Vec<&QRec> = run.q.iter().filter(|q| q.explicit).collect();
+        let desc = "corpus-weight-underflow".to_string();
+        if qs.len() == 6 {
+            let p: Vec<f64> = qs.iter().map(|q| q.obs.per_sec).collect();
+            s.notes.push(format!(
+                "weight underflow on the implementation (1000 steps in 1 s, then a stall): per_sec {:e} after 4614 s, {:e} after 4615 s, {:e} after 4854 s, {:e} after 4855 s (eta {:?}), {:e} after 104855 s; Coq: 0.1^(x/15) < 2^-1022 from 4615 s, < 2^-1075 (rounds to 0) from 4855 s",
+                p[1], p[2], p[3], p[4], qs[4].obs.eta, p[5]
+            ));
+            // what the threshold theorem predicts for a round-to-nearest powf
+            if !(p[1] > 0.0 && p[3] > 0.0) {
+                s.fail("rate-zero-although-progress-seen", format!("per_sec {} after 4614 s / {} after 4854 s: the weight has not underflowed yet", p[1], p[3]), desc.clone());
+            }
+            if p[4] != 0.0 || p[5] != 0.0 {
+                s.notes.push("powf does not return 0 where the correctly rounded weight is 0 (stall >= 4855 s)".to_string());
+            }
+        } else {
+            s.fail("panic", "underflow corpus case did not produce 6 observations".into(), desc);
+        }
+    }
+
     // D11: 60 x 1/s then 2 x 100/s then a stall sampled every 0.5 s
     {
         let mut ops = vec![];
@@ -1294,46 +1316,22 @@ fn main() {
             s.fail("panic", "steady coq witness did not produce 2 observations".into(), desc);
         }
     }
-    // the witness of Theorems C09_bar_rewind_instant_refuted / C09_f64_rewind_instant_nan_refuted: no reset
-    // anywhere; update(set_pos 10) at 1 s; update(set_pos 5) at 2 s; query at 2 s and 1 ns later
+    // regression witness of fix 56491a5 (Theorems C09_bar_rewind_instant_pre_56491a5 /
+    // C09_f64_rewind_instant_nan_pre_56491a5): no reset anywhere; update(set_pos 10) at 1 s;
+    // update(set_pos 5) at 2 s; query at 2 s (was NaN, must be 0) and 1 ns later
     {
         let ops = vec![Op::Adv(S), Op::UpdPos(10), Op::Adv(S), Op::UpdPos(5), Op::Query, Op::Adv(1), Op::Query];
-        let run = emit(&mut s, &mut st, "corpus-rewind-instant-nan-coq-witness", Some(100), 0, &ops, true, None);
+        let run = emit(&mut s, &mut st, "corpus-rewind-instant-fixed-56491a5", Some(100), 0, &ops, true, None);
         let qs: Vec<&QRec> = run.q.iter().filter(|q| q.explicit).collect();
+        let desc = "corpus-rewind-instant-fixed-56491a5".to_string();
         if qs.len() == 2 {
-            if qs[0].obs.per_sec.is_nan() {
-                s.notes.push(format!("rewind-instant Coq witness replayed on the implementation: per_sec() = NaN at the instant of the recorded backwards seek (2 s after creation, no reset), {} one ns later", qs[1].obs.per_sec));
+            if qs[0].obs.per_sec.to_bits() == 0 && qs[0].obs.eta == Some(Duration::ZERO) {
+                s.notes.push(format!("fix 56491a5 replayed: per_sec() = 0 (was NaN) at the instant of the recorded backwards seek (2 s after creation, no reset), {} one ns later", qs[1].obs.per_sec));
             } else {
-                s.notes.push(format!("rewind-instant witness does NOT give NaN on the implementation any more: per_sec() = {} (candidate finding nan-at-backwards-seek-instant is stale)", qs[0].obs.per_sec));
-            }
-        }
-    }
-    // binary64 underflow of the weight: thresholds of Theorem C09_weight_underflow_thresholds
-    {
-        let ops = vec![
-            Op::Adv(S), Op::UpdPos(1000), Op::Query,
-            Op::Adv(4614 * S), Op::Query, Op::Adv(S), Op::Query,              // 4614 s, 4615 s
-            Op::Adv(239 * S), Op::Query, Op::Adv(S), Op::Query,              // 4854 s, 4855 s
-            Op::Adv(100_000 * S), Op::Query,
-        ];
-        let run = emit(&mut s, &mut st, "corpus-weight-underflow", Some(1_000_000), 0, &ops, true, None);
-        let qs: Vec<&QRec> = run.q.iter().filter(|q| q.explicit).collect();
-        let desc = "corpus-weight-underflow".to_string();
-        if qs.len() == 6 {
-            let p: Vec<f64> = qs.iter().map(|q| q.obs.per_sec).collect();
-            s.notes.push(format!(
-                "weight underflow on the implementation (1000 steps in 1 s, then a stall): per_sec {:e} after 4614 s, {:e} after 4615 s, {:e} after 4854 s, {:e} after 4855 s (eta {:?}), {:e} after 104855 s; Coq: 0.1^(x/15) < 2^-1022 from 4615 s, < 2^-1075 (rounds to 0) from 4855 s",
-                p[1], p[2], p[3], p[4], qs[4].obs.eta, p[5]
-            ));
-            // what the threshold theorem predicts for a round-to-nearest powf
-            if !(p[1] > 0.0 && p[3] > 0.0) {
-                s.fail("rate-zero-although-progress-seen", format!("per_sec {} after 4614 s / {} after 4854 s: the weight has not underflowed yet", p[1], p[3]), desc.clone());
-            }
-            if p[4] != 0.0 || p[5] != 0.0 {
-                s.notes.push("powf does not return 0 where the correctly rounded weight is 0 (stall >= 4855 s)".to_string());
+                s.fail("nan-at-backwards-seek-instant", format!("per_sec() = {} eta = {:?} at the instant of the recorded backwards seek; fix 56491a5 makes it +0.0 / 0 s", qs[0].obs.per_sec, qs[0].obs.eta), desc);
             }
         } else {
-            s.fail("panic", "underflow corpus case did not produce 6 observations".into(), desc);
+            s.fail("panic", "rewind-instant witness did not produce 2 observations".into(), desc);
         }
     }
 
@@ -1374,8 +1372,8 @@ fn main() {
         st.stall_windows, st.stall_rises, st.stall_rises_known
     ));
     s.notes.push(format!(
-        "candidate findings (not in known_findings.json; reported: underflow={REPORT_UNDERFLOW_FINDING}, rewind-nan={REPORT_REWIND_NAN_FINDING}): rate-underflow-after-long-stall seen at {} readings, nan-at-backwards-seek-instant at {} readings",
-        st.cand_underflow, st.cand_rewind_nan
+        "D32 rate-underflow-after-long-stall seen at {} readings; known classes are reported at most {KNOWN_CLASS_REPORT_CAP} times each per run (totals: oracle_failure:<class> in the input distribution)",
+        st.underflow_seen
     ));
     set_auto_step_ns(0);
     s.finish();
